@@ -115,9 +115,10 @@ impl CertificateInfo {
         let days_until_expiry = match not_after.duration_since(now) {
             Ok(duration) => (duration.as_secs() / 86400) as i64,
             Err(_) => {
-                // Certificate has expired
+                // Certificate has expired: round away from zero, so that a certificate that
+                // expired less than a day ago is not reported as "0 days left" (not expired)
                 let duration = now.duration_since(not_after).unwrap();
-                -((duration.as_secs() / 86400) as i64)
+                -(duration.as_secs().div_ceil(86400).max(1) as i64)
             }
         };
 
